@@ -352,11 +352,33 @@ def run(ctx):
             subsets = [()] + rng.sample(subsets[1:], 4)
         for ignore in subsets:
             ctx.event('ignore_sets')
+            # the documented ways to load a workbook
+            how = rng.choice(['read_and_parse_archive',
+                              'read_and_parse_archive', 'pathlib path',
+                              'build_code=False, then build_code()',
+                              'read_excel_file + parse_archive + build_code'])
+            ctx.event('load_forms:' + how.split(',')[0].split(' ')[0])
             try:
-                model = ModelCompiler().read_and_parse_archive(
-                    path, ignore_sheets=list(ignore))
+                if how == 'read_and_parse_archive':
+                    model = ModelCompiler().read_and_parse_archive(
+                        path, ignore_sheets=list(ignore))
+                elif how == 'pathlib path':
+                    import pathlib
+                    model = ModelCompiler().read_and_parse_archive(
+                        pathlib.Path(path), ignore_sheets=list(ignore))
+                elif how.startswith('build_code=False'):
+                    model = ModelCompiler().read_and_parse_archive(
+                        path, ignore_sheets=list(ignore), build_code=False)
+                    model.build_code()
+                else:
+                    mc = ModelCompiler()
+                    archive = mc.read_excel_file(path)
+                    mc.parse_archive(archive, ignore_sheets=list(ignore))
+                    mc.model.build_code()
+                    model = mc.model
             except Exception as e:  # noqa
-                ctx.fail(f'loading {sheets} (ignore {list(ignore)}) raised '
+                ctx.fail(f'loading {sheets} (ignore {list(ignore)}; {how}) '
+                         f'raised '
                          f'{type(e).__name__}: {str(e)[:300]}',
                          {'sheets': sheets, 'ignore': list(ignore),
                           'names': sp.sb.names, 'forms': sorted(sp.forms)},
@@ -511,9 +533,10 @@ def run(ctx):
                     g = p.split(':', 1)[1][:26] if ':' in p else p[:26]
                     groups.setdefault(g, []).append(p)
                 for g, ps in groups.items():
-                    ctx.fail(f'file {sheets} ignore={list(ignore)}: {ps[0]} '
-                             f'(+{len(ps) - 1} alike)',
+                    ctx.fail(f'file {sheets} ignore={list(ignore)} [{how}]: '
+                             f'{ps[0]} (+{len(ps) - 1} alike)',
                              {'sheets': sheets, 'ignore': list(ignore),
+                              'loaded_by': how,
                               'problems': ps[:10], 'names': sp.sb.names},
                              monitor='load-equivalence', group=g)
         try:
